@@ -49,13 +49,16 @@ def toArr2 {n p : Nat} (A : Mat n p) : Array (Array Rat) :=
 def ofArr2 {n p : Nat} (a : Array (Array Rat)) : Mat n p :=
   fun i j => (a.getD i.1 #[]).getD j.1 0
 
-def memo {n p : Nat} (A : Mat n p) : Mat n p :=
-  let a := toArr2 A
-  ofArr2 a
+/-- array-backed copy of a matrix.  NB: because `Mat` is a function type the compiler
+    eta-expands any definition returning a `Mat`, so the executable code never calls `memo`
+    itself: it binds `toArr2 …` in a `let` (evaluated once) and reads through `ofArr2`. -/
+def memo {n p : Nat} (A : Mat n p) : Mat n p := ofArr2 (toArr2 A)
 
-def memoV {n : Nat} (x : Vec n) : Vec n :=
-  let a : Array Rat := Array.ofFn x
-  fun i => a.getD i.1 0
+def toArr1 {n : Nat} (x : Vec n) : Array Rat := Array.ofFn x
+
+def ofArr1 {n : Nat} (a : Array Rat) : Vec n := fun i => a.getD i.1 0
+
+def memoV {n : Nat} (x : Vec n) : Vec n := ofArr1 (toArr1 x)
 
 /-! ### certified inverse -/
 
@@ -147,21 +150,29 @@ structure Fit (n p v : Nat) where
 
 /-- fit on already whitened design and data -/
 def fitW {n p v : Nat} (wX : Mat n p) (wY : Mat n v) : Option (Fit n p v) :=
-  match inv? (memo (mmul (tr wX) wX)) with
+  let gram := toArr2 (mmul (tr wX) wX)
+  match inv? (ofArr2 gram) with
   | none => none
   | some G =>
-      let pinv := memo (mmul G (tr wX))
-      let beta := memo (mmul pinv wY)
-      let wresid := memo (msub wY (mmul wX beta))
-      let sse : Vec v := memoV fun j => fsum fun i => wresid i j * wresid i j
+      let pinvA := toArr2 (mmul G (tr wX))
+      let pinv : Mat p n := ofArr2 pinvA
+      let betaA := toArr2 (mmul pinv wY)
+      let beta : Mat p v := ofArr2 betaA
+      let wresidA := toArr2 (msub wY (mmul wX beta))
+      let wresid : Mat n v := ofArr2 wresidA
+      let sseA := toArr1 fun j : Fin v => fsum fun i => wresid i j * wresid i j
+      let sse : Vec v := ofArr1 sseA
+      let covA := toArr2 (mmul pinv (tr pinv))
       some { pinv := pinv, beta := beta, wresid := wresid, sse := sse,
              dispersion := fun j => sse j / ((n : Rat) - (p : Rat)),
-             cov := memo (mmul pinv (tr pinv)),
+             cov := ofArr2 covA,
              dfResid := (n : Int) - (p : Int) }
 
 /-- `Model(design).fit(Y)` for the four model classes -/
 def fit {n p v : Nat} (w : Whitener n) (X : Mat n p) (Y : Mat n v) : Option (Fit n p v) :=
-  fitW (memo (w.apply X)) (memo (w.apply Y))
+  let wXa := toArr2 (w.apply X)
+  let wYa := toArr2 (w.apply Y)
+  fitW (ofArr2 wXa) (ofArr2 wYa)
 
 /-- `RegressionResults.predicted = design · theta` (un-whitened design) -/
 def predicted {n p v : Nat} (X : Mat n p) (f : Fit n p v) : Mat n v := mmul X f.beta
@@ -188,11 +199,14 @@ def tVar {n p v : Nat} (f : Fit n p v) (c : Vec p) : Vec v :=
 
 /-- `Fcontrast`: `F = (Cθ)ᵀ (C cov Cᵀ)⁻¹ (Cθ) / (q · dispersion)`, per voxel -/
 def fStat {n p v q : Nat} (f : Fit n p v) (C : Mat q p) : Option (Vec v) :=
-  match inv? (memo (mmul C (mmul f.cov (tr C)))) with
+  let ccA := toArr2 (mmul C (mmul f.cov (tr C)))
+  match inv? (ofArr2 ccA) with
   | none => none
   | some iv =>
-      let ct : Mat q v := memo (mmul C f.beta)
-      let ict : Mat q v := memo (mmul iv ct)
+      let ctA := toArr2 (mmul C f.beta)
+      let ct : Mat q v := ofArr2 ctA
+      let ictA := toArr2 (mmul iv ct)
+      let ict : Mat q v := ofArr2 ictA
       some fun j => (fsum fun a => ict a j * ct a j) / ((q : Rat) * f.dispersion j)
 
 /-! ### `nipy.labs.glm.glm.ols` (axis 0, 2-D data) -/
@@ -204,19 +218,31 @@ structure LabsFit (p v : Nat) where
   dof : Rat
 
 def labsOls {n p v : Nat} (X : Mat n p) (Y : Mat n v) : Option (LabsFit p v) :=
-  match inv? (memo (mmul (tr X) X)) with
+  let gram := toArr2 (mmul (tr X) X)
+  match inv? (ofArr2 gram) with
   | none => none
   | some G =>
-      let pX := memo (mmul G (tr X))
-      let beta := memo (mmul pX Y)
-      let res := memo (msub Y (mmul X beta))
-      some { beta := beta, nvbeta := memo (mmul pX (tr pX)),
-             s2 := fun j => (fsum fun i => res i j * res i j) / ((n : Rat) - (p : Rat)),
-             dof := (n : Rat) - (p : Rat) }
+      let pXA := toArr2 (mmul G (tr X))
+      let pX : Mat p n := ofArr2 pXA
+      let betaA := toArr2 (mmul pX Y)
+      let beta : Mat p v := ofArr2 betaA
+      let resA := toArr2 (msub Y (mmul X beta))
+      let res : Mat n v := ofArr2 resA
+      let nvA := toArr2 (mmul pX (tr pX))
+      let s2A := toArr1 fun j : Fin v => (fsum fun i => res i j * res i j) / ((n : Rat) - (p : Rat))
+      some { beta := beta, nvbeta := ofArr2 nvA, s2 := ofArr1 s2A, dof := (n : Rat) - (p : Rat) }
 
 /-- `labs.glm.glm.contrast` for a 1-D contrast: `(c·B, c nvbeta c · s2)` -/
 def labsTEffect {p v : Nat} (f : LabsFit p v) (c : Vec p) : Vec v := fun j => fsum fun a => c a * f.beta a j
 def labsTVar {p v : Nat} (f : LabsFit p v) (c : Vec p) : Vec v := fun j => vdot c (mvec f.nvbeta c) * f.s2 j
+
+/-- `GeneralLinearModel.fit(model='ols')` then `get_beta()` / `get_mse()`:
+    one result for the label `0.0`, `theta` and `MSE` of `OLSModel(X).fit(Y)` -/
+def glmOls {n p v : Nat} (X : Mat n p) (Y : Mat n v) : Option (Mat p v × Vec v) :=
+  (fit .ols X Y).map fun f => (f.beta, mse f)
+
+/-- diagonal matrix (`cholsigmainv` of a diagonal covariance `diag(1/c²)`) -/
+def diag {n : Nat} (c : Vec n) : Mat n n := fun i j => if i = j then c i else 0
 
 /-! ### Kalman filter (`fff_glm_KF_*`) -/
 
@@ -237,15 +263,15 @@ def kfInit (p : Nat) (iv : Rat) : KF p :=
 /-- `fff_glm_KF_iterate` -/
 def kfStep {p : Nat} (s : KF p) (x : Vec p) (y : Rat) : KF p :=
   let Ey := vdot x s.b
-  let c : Vec p := memoV (mvec s.P x)          -- Cby = Vb x   (dsymv)
+  let cA := toArr1 (mvec s.P x)                -- Cby = Vb x   (dsymv)
+  let c : Vec p := ofArr1 cA
   let Vy := vdot x c + 1
   let invVy := 1 / Vy
   let ino := y - Ey
   let ssd := s.ssd + ino * ino * invVy
-  { b := memoV fun i => s.b i + invVy * ino * c i           -- daxpy
-    P := memo fun i j => s.P i j + (-invVy) * (c i * c j)   -- dger
-    ssd := ssd
-    t := s.t + 1
+  let bA := toArr1 fun i => s.b i + invVy * ino * c i             -- daxpy
+  let PA := toArr2 fun i j => s.P i j + (-invVy) * (c i * c j)    -- dger
+  { b := ofArr1 bA, P := ofArr2 PA, ssd := ssd, t := s.t + 1,
     s2 := ssd / ((s.t + 1 : Nat) : Rat) }
 
 /-- `fff_glm_KF_fit`: reset, then one iteration per row of the design -/
@@ -412,7 +438,7 @@ def run : Toks → String
             let Y' : Mat n v := h ▸ Y
             let (B, S2, dof) := kalmanOls X Y'
             let vb : String := if hv : 0 < v then fmtM (kfFit X (fun i => Y' i ⟨v - 1, by omega⟩)).P else ""
-            pure (sep.intercalate [fmtM (memo B), fmtV S2, fmtRat dof, vb])
+            pure (sep.intercalate [fmtM B, fmtV S2, fmtRat dof, vb])
           else failure) rest with
       | some s => s
       | none => "bad-op"
@@ -427,7 +453,8 @@ def run : Toks → String
             pure (match fit .ols X Y' with
                   | none => "error:singular"
                   | some f0 =>
-                      let r := memo (resid X Y' f0)
+                      let rA := toArr2 (resid X Y' f0)
+                      let r : Mat n v := ofArr2 rA
                       let bins := (List.finRange v).map (ar1Bin steps r)
                       if bins.all Option.isSome then
                         let lab : Fin v → Int := fun j => ((bins.getD j.1 none).getD 0)
@@ -435,7 +462,7 @@ def run : Toks → String
                           let (a, d) := ar1Parts r j; a / d * (steps : Rat)
                         match glmAr1 steps X Y' lab with
                         | some (B, M) => sep.intercalate [fmtInts ((List.finRange v).map lab), fmtRats exact,
-                                                          fmtM (memo B), fmtV M]
+                                                          fmtM B, fmtV M]
                         | none => "error:singular"
                       else "error:nan")
           else failure) rest with
